@@ -293,6 +293,24 @@ def rule_invalid_arg_guards(eng, rep, ctx):
         rep.ok(rule, eng.where(solve, cfg.ast_of(pv[0])), "bad parameter values guarded by `not all_ok`")
     else:
         missing.append("bad parameter values")
+    # single-parameter threshold rows
+    for (rid, key, op, lit, reason) in tables.PARAM_THRESHOLD_ROWS:
+        hit = weak = None
+        for s, gs in site_guards.items():
+            for a in gs:
+                if isinstance(a.lhs, ast.Call) and param_key(eng, a.lhs) == key and const_value(a.rhs) == lit and a.op in ("lt", "le"):
+                    if a.op == op:
+                        hit = (s, a)
+                    else:
+                        weak = (s, a)
+        if hit is not None:
+            classified.add(hit[0])
+            rep.ok(rule, eng.where(solve, cfg.ast_of(hit[0])), "%s guarded by `%r`" % (rid, hit[1]))
+        elif weak is not None:
+            classified.add(weak[0])
+            rep.bad(rule, eng.where(solve, cfg.ast_of(weak[0])), "solver.solve|weakened-guard|%s" % rid, "guard for `%s` (%s) is `%r`: boundary value is no longer rejected" % (rid, reason, weak[1]))
+        else:
+            missing.append(rid)
     # option-pair rows
     for (rid, conds, reason) in tables.OPTION_PAIR_ROWS:
         hit = None
@@ -768,6 +786,121 @@ def _exit_context(cfg, n):
     return "exit"
 
 
+# --------------------------------------------------------------------------------------------- C07-5b
+def rule_validators_test_the_value_itself(eng, rep, rule="C07-5b.type-validators-test-the-value-itself"):
+    """check_param dispatches on the type string to check_integer / check_float / check_bool / check_str.  'Wrongly typed user parameters yield the
+    input-error flag' needs each validator to accept only when isinstance(<the value it was given>, <that type>) holds: the value parameter is never
+    re-assigned (a validator that converts its local copy accepts values the solver then receives unconverted), and every accepting return is either
+    the isinstance test itself or dominated by its true outcome."""
+    cp = eng.fn("params.ParameterList.check_param")
+    expected = {"int": {"int"}, "float": {"float"}, "bool": {"bool"}, "str": {"str", "unicode"}}
+    cfg = eng.cfg(cp)
+    n = 0
+    for ci in eng.calls_in(cp):
+        if not ci.targets or not ci.targets[0].qualname.startswith("check_"):
+            continue
+        gs = guards_of(cfg, cfg.cfg_node(ci.node))
+        tstr = None
+        for (_b, a) in gs:
+            if a.op == "eq" and isinstance(a.rhs, ast.Constant) and isinstance(a.rhs.value, str):
+                tstr = a.rhs.value
+            elif a.op == "eq" and isinstance(a.lhs, ast.Constant) and isinstance(a.lhs.value, str):
+                tstr = a.lhs.value
+        V = ci.targets[0]
+        site = eng.where(V)
+        if tstr not in expected:
+            rep.unknown(rule, eng.where(cp, ci.node), "validator call not under a `type_str == '<type>'` test")
+            continue
+        n += 1
+        val = V.posparams[0]
+        vcfg = eng.cfg(V)
+        reassigned = [m for m in vcfg.g.nodes if m != vcfg.entry and val in vcfg.defs_of(m)[0]]
+        if reassigned:
+            rep.bad(rule, eng.where(V, vcfg.ast_of(reassigned[0])), "%s|validator-reassigns-value" % V.fid,
+                    "%s re-assigns `%s` before testing it: the test is passed by the converted copy while the parameter list keeps the original (wrongly typed) value" % (V.qualname, val))
+            continue
+
+        def is_type_test(e):
+            if isinstance(e, ast.BoolOp) and isinstance(e.op, ast.Or):
+                return all(is_type_test(v) for v in e.values)
+            return isinstance(e, ast.Call) and isinstance(e.func, ast.Name) and e.func.id == "isinstance" and len(e.args) == 2 and ekey(e.args[0]) == val \
+                and set(x.id for x in ast.walk(e.args[1]) if isinstance(x, ast.Name)) <= expected[tstr]
+
+        okv = True
+        for m, d in vcfg.g.nodes(data=True):
+            st = d["ast"]
+            if d["kind"] != "stmt" or not isinstance(st, ast.Return) or st.value is None:
+                continue
+            v = st.value
+            if (isinstance(v, ast.Constant) and v.value is False) or is_type_test(v):
+                continue
+            g2 = guards_of(vcfg, m)
+            none_branch = any(a.op == "is" and ekey(a.lhs) == val and is_none(a.rhs) for (_b, a) in g2)
+            if none_branch and isinstance(v, ast.Name) and v.id in V.all_params:
+                continue          # `if val is None: return allow_nonetype`
+            typed = any(a.op == "truth" and is_type_test(a.lhs) for (_b, a) in g2)
+            if not typed:
+                okv = False
+                rep.bad(rule, eng.where(V, st), "%s|accepts-without-type-test" % V.fid,
+                        "%s can return `%s` without isinstance(%s, %s) having held" % (V.qualname, short(v, 40), val, "/".join(sorted(expected[tstr]))))
+        if okv:
+            rep.ok(rule, site, "%s accepts only when isinstance(%s, %s) holds for the value it was given" % (V.qualname, val, "/".join(sorted(expected[tstr]))))
+    rep.require_count(rule, "type validators", n, 4)
+
+
+# --------------------------------------------------------------------------------------------- C07-12
+def rule_restart_geometry_loop_in_range(eng, rep, rule="C07-12.restart-geometry-loop-stays-inside-the-list-of-closest-points"):
+    """soft_restart cuts the sorted list of closest points to L[a : g + a] (a = 1 when the incumbent is kept) and loops over range(min(g, U)), reading L[i].
+    The slice has min(g, N - a) entries (N points), so U must be N - a in *each* branch (sibling consistency of the two copy-pasted branches): a larger U
+    is an IndexError out of solve for restarts.soft.num_geom_steps >= npt."""
+    sr = eng.fn("controller.Controller.soft_restart")
+    cfg = eng.cfg(sr)
+    found = 0
+    for ifn in [x for x in eng.prog.own_nodes(sr) if isinstance(x, ast.If)]:
+        per_branch = []
+        for body in (ifn.body, ifn.orelse):
+            cut = lim = None
+            for st in body:
+                if isinstance(st, ast.Assign) and len(st.targets) == 1 and isinstance(st.targets[0], ast.Name):
+                    t, v = st.targets[0].id, st.value
+                    if isinstance(v, ast.Subscript) and isinstance(v.value, ast.Name) and v.value.id == t and isinstance(v.slice, ast.Slice):
+                        lo = 0 if v.slice.lower is None else const_value(v.slice.lower)
+                        up = v.slice.upper
+                        cut = (t, lo, up, st)
+                    else:
+                        base, off = v, 0
+                        if isinstance(v, ast.BinOp) and isinstance(v.op, (ast.Sub, ast.Add)) and const_value(v.right) is not None:
+                            base, off = v.left, (const_value(v.right) if isinstance(v.op, ast.Sub) else -const_value(v.right))
+                        lim = (t, ekey(base), off, st)
+            per_branch.append((cut, lim))
+        if not all(c is not None and l is not None for (c, l) in per_branch) or len(per_branch) != 2:
+            continue
+        (c1, l1), (c2, l2) = per_branch
+        if c1[0] != c2[0] or l1[0] != l2[0]:
+            continue
+        # the loop that reads the list: for i in range(min(.., U)): .. L[i]
+        reads = [x for x in eng.prog.own_nodes(sr) if isinstance(x, ast.Subscript) and isinstance(x.value, ast.Name) and x.value.id == c1[0] and isinstance(x.slice, ast.Name) and isinstance(x.ctx, ast.Load)]
+        if not reads:
+            continue
+        found += 1
+        for (cut, lim) in per_branch:
+            site = eng.where(sr, lim[3])
+            # slice upper bound must be g + a (so that g entries are available when there are enough points)
+            up_ok = True
+            if cut[1] and cut[2] is not None:
+                u = cut[2]
+                up_ok = isinstance(u, ast.BinOp) and isinstance(u.op, ast.Add) and const_value(u.right) == cut[1]
+            if lim[1] != l1[1]:
+                rep.bad(rule, site, "controller.Controller.soft_restart|limit-base-differs", "the two branches bound the loop by different quantities (`%s` / `%s`)" % (l1[1], lim[1]))
+            elif cut[1] is None or lim[2] != cut[1] or not up_ok:
+                rep.bad(rule, site, "controller.Controller.soft_restart|limit-vs-slice|%s-%s" % (cut[1], lim[2]),
+                        "`%s` drops the first %s entries of the list but the loop bound is `%s`: with %s entries skipped the list holds at most %s - %s points, so the loop can index past its end (IndexError out of solve)"
+                        % (short(cut[3], 60), cut[1], short(lim[3].value, 40), cut[1], lim[1], cut[1]))
+            else:
+                rep.ok(rule, site, "list cut to [%s : g + %s], loop bounded by %s - %s" % (cut[1], cut[1], lim[1], lim[2]))
+    rep.require_count(rule, "sliced-list / loop-limit sibling branches in soft_restart", found, 1)
+
+
 # --------------------------------------------------------------------------------------------- C07-10
 def rule_internal_param_updates(eng, rep, rule="C07-10.internal-parameter-updates-cannot-collide-with-user-updates"):
     """ParameterList.__call__ raises ValueError on a second update of a key.  Every update made by the package itself after the
@@ -829,11 +962,64 @@ def _flag_means_key_not_set(eng, fi, flag, key, op):
             if isinstance(e, ast.Name):
                 exprs = [ccfg.ast_of(d).value for d in ccfg.defs_reaching(e, e.id) if isinstance(ccfg.ast_of(d), ast.Assign)]
             for ex in exprs:
-                for sub in ast.walk(ex):
-                    if isinstance(sub, ast.Compare) and len(sub.ops) == 1 and isinstance(sub.ops[0], ast.In) and isinstance(sub.left, ast.Constant) and sub.left.value == key \
-                            and "user_params" in ekey(sub.comparators[0]):
-                        found = True
+                if not _membership_implies(ex, key):
+                    return False
+                found = True
     return found
+
+
+def _membership_implies(ex, key):
+    """Truth table over the atoms of the flag's defining expression: whenever `'<key>' in user_params` holds (so user_params is not None), the flag must
+    be true -- only then does `not flag` exclude that the user set this key.  (`a in up or b in up` qualifies for both keys, `a in up and b in up` for neither.)"""
+    import itertools
+    atoms = {}
+
+    def positive(e):
+        """`a not in b` / `a is None` are the negations of the atoms `a in b` / `a is not None`"""
+        if isinstance(e, ast.Compare) and len(e.ops) == 1 and isinstance(e.ops[0], (ast.NotIn, ast.Is)):
+            pos = ast.Compare(left=e.left, ops=[ast.In() if isinstance(e.ops[0], ast.NotIn) else ast.IsNot()], comparators=e.comparators)
+            return pos, True
+        return e, False
+
+    def atom(e):
+        e, _neg = positive(e)
+        return atoms.setdefault(ekey(e), e)
+
+    def collect(e):
+        if isinstance(e, ast.BoolOp):
+            for v in e.values:
+                collect(v)
+        elif isinstance(e, ast.UnaryOp) and isinstance(e.op, ast.Not):
+            collect(e.operand)
+        else:
+            atom(e)
+
+    def ev(e, env):
+        if isinstance(e, ast.BoolOp):
+            vals = [ev(v, env) for v in e.values]
+            return all(vals) if isinstance(e.op, ast.And) else any(vals)
+        if isinstance(e, ast.UnaryOp) and isinstance(e.op, ast.Not):
+            return not ev(e.operand, env)
+        pe, neg = positive(e)
+        return (not env[ekey(pe)]) if neg else env[ekey(pe)]
+
+    collect(ex)
+    mine = [k for k, e in atoms.items() if isinstance(e, ast.Compare) and len(e.ops) == 1 and isinstance(e.ops[0], ast.In) and isinstance(e.left, ast.Constant)
+            and e.left.value == key and "user_params" in ekey(e.comparators[0])]
+    if not mine or len(atoms) > 10:
+        return False
+    notnone = [k for k, e in atoms.items() if isinstance(e, ast.Compare) and len(e.ops) == 1 and isinstance(e.ops[0], ast.IsNot) and "user_params" in ekey(e.left) and is_none(e.comparators[0])]
+    isnone = [k for k, e in atoms.items() if isinstance(e, ast.Compare) and len(e.ops) == 1 and isinstance(e.ops[0], ast.Is) and "user_params" in ekey(e.left) and is_none(e.comparators[0])]
+    names = sorted(atoms)
+    for combo in itertools.product([False, True], repeat=len(names)):
+        env = dict(zip(names, combo))
+        if not all(env[k] for k in mine):
+            continue
+        if any(not env[k] for k in notnone) or any(env[k] for k in isnone):
+            continue          # a key can only be in user_params if user_params is not None
+        if not ev(ex, env):
+            return False
+    return True
 
 
 # --------------------------------------------------------------------------------------------- C07-11
@@ -918,6 +1104,8 @@ def run(eng, rep):
     rule_unknown_key(eng, rep)
     rule_raises(eng, rep)
     rule_exit_info_nonnull(eng, rep)
+    rule_validators_test_the_value_itself(eng, rep)
+    rule_restart_geometry_loop_in_range(eng, rep)
     rule_internal_param_updates(eng, rep)
     rule_definite_assignment(eng, rep)
     from . import c20
